@@ -5,6 +5,7 @@ from ..cfg import describe_path, witness
 from ..core import AnalysisError, u, walk_local
 from ..lib import (construct, copy_kind, std_facts, calls_of_node, stored_names,
                    at_least)
+from ..core import enclosing_stmt
 
 ENTER = 'config._ScopeManager.enter_scope'
 EXIT = 'config._ScopeManager.exit_scope'
@@ -256,3 +257,144 @@ def lock_facts(ctx, f, atoms, writers):
 
 def unlocked_at(fs, atoms):
   return any(('c', a, False) in fs for a in atoms)
+
+
+# ----------------------------------------------------------------------------
+# WHO-reads: which module-level stores a function may touch, and which
+# per-object state a class may hold (tables confirmed by reading; a new store
+# or attribute in the data path of a property is new state the property's
+# guarantee now depends on).
+
+
+def allowed_stores(ctx, rule, table, why):
+  """table: {function qual: set of allowed store names of gin/config.py}.
+  Nested functions are included with their enclosing function."""
+  from ..resolve import store_accesses
+  prog = ctx.prog
+  stores, acc = store_accesses(prog, 'config')
+  for q, allowed in table.items():
+    f = ctx.func(q)
+    mine = [a for a in acc if a.func is not None and (a.func.qual == q or a.func.qual.startswith(q + '.'))]
+    extra = sorted({a.store for a in mine} - set(allowed))
+    if extra:
+      for st in extra:
+        a = [x for x in mine if x.store == st][0]
+        ctx.fail(rule, construct(f),
+                 '%s reads/writes module-level store %s (%s), which is outside what this function may depend on (%s): %s'
+                 % (f.name, st, a.method or a.kind, sorted(allowed) or 'no store', why),
+                 a.func.loc(a.node), sites=len(mine), instance='store:' + st)
+    else:
+      ctx.hold(rule, construct(f), '%s touches only %s' % (f.name, sorted({a.store for a in mine}) or 'no module-level store'),
+               f.loc(), sites=max(len(mine), 1), instance='stores')
+
+
+def instance_state(ctx, rule, class_qual, allowed, why):
+  """Every `self.X = ...` in any method of the class must name an attribute in
+  `allowed`; a new mutable attribute is new per-object state."""
+  c = ctx.cls(class_qual)
+  con = '%s::%s' % (c.module.relpath, c.name)
+  seen = {}
+  for name, m in c.methods.items():
+    selfn = m.params[0] if m.params else 'self'
+    for n in walk_local(m.node):
+      if isinstance(n, ast.Attribute) and isinstance(n.ctx, ast.Store) and isinstance(n.value, ast.Name) and n.value.id == selfn:
+        seen.setdefault(n.attr, []).append((m, n))
+  extra = sorted(set(seen) - set(allowed))
+  for a in extra:
+    m, n = seen[a][0]
+    ctx.fail(rule, con, 'new per-object state `self.%s` (set in %s): %s' % (a, m.name, why), m.loc(n), instance='attr:' + a)
+  if not extra:
+    ctx.hold(rule, con, 'per-object state is exactly %s' % sorted(seen), '%s:%d' % (c.module.relpath, c.node.lineno),
+             sites=sum(len(v) for v in seen.values()), instance='attrs')
+  return seen
+
+
+def module_has_no_state(ctx, rule, modname, why):
+  from ..resolve import module_stores
+  st = module_stores(ctx.prog, modname)
+  m = ctx.ix.module(modname)
+  ctx.check(not st, rule, m.relpath, 'gin/%s.py keeps no module-level mutable state' % modname,
+            'gin/%s.py now keeps module-level state %s: %s' % (modname, sorted(st), why),
+            '%s:%d' % (m.relpath, (list(st.values())[0][0].lineno if st else 1)), instance='module-state')
+
+
+def must_pass(g, start_id, stop_ids, through_ids):
+  """True iff every path from start to any node in stop_ids passes a node in
+  through_ids (paths that leave by raising are ignored)."""
+  return witness(g, start_id, stop_ids, avoid=through_ids) is None
+
+
+def fresh_kwarg_defaults(ctx, rule):
+  """`_get_kwarg_defaults` hands out a dict that its callers filter in place
+  (`del arg_vals[k]`), so every call must build a fresh dict."""
+  prog = ctx.prog
+  f = ctx.func('config._get_kwarg_defaults')
+  g, facts = std_facts(prog, f)
+  rets = [n for n in g.live_nodes() if n.kind == 'return' and n.ast.value is not None]
+  ok = bool(rets)
+  bad = ''
+  for r in rets:
+    v = r.ast.value
+    if isinstance(v, ast.Name):
+      defs = [a.value for a in walk_local(f.node) if isinstance(a, ast.Assign) and u(a.targets[0]) == v.id]
+      kinds = [copy_kind(d) for d in defs]
+      fresh = bool(defs) and all(k in ('FRESH', 'SHALLOW') or (isinstance(d, ast.Call) and u(d.func) == 'dict') for d, k in zip(defs, kinds))
+      if not fresh:
+        ok = False
+        bad = '%s = %s' % (v.id, [u(d) for d in defs])
+    elif copy_kind(v) not in ('FRESH', 'SHALLOW'):
+      ok = False
+      bad = u(v)
+  mutators = []
+  for cf, cn in prog.call_sites_of(f.qual):
+    st = enclosing_stmt(cn)
+    if isinstance(st, ast.Assign) and isinstance(st.targets[0], ast.Name):
+      nm = st.targets[0].id
+      if any(isinstance(x, ast.Delete) and any(isinstance(t, ast.Subscript) and u(t.value) == nm for t in x.targets) for x in walk_local(cf.node)):
+        mutators.append(cf.name)
+  ctx.check(ok, rule, construct(f),
+            'each call builds a fresh dict of signature defaults (callers %s filter it in place)' % (mutators or 'may'),
+            'the dict of signature defaults handed out is not fresh (`%s`), but %s delete(s) entries from it in place: after the first '
+            'registration of a function its REQUIRED / filtered defaults are missing for every later registration' % (bad, mutators or 'a caller'),
+            f.loc(), instance='fresh-defaults')
+
+
+def finalize_conflict_guard(ctx, rule):
+  """finalize(): each hook update is keyed by the *parsed* binding key and
+  inserted only if that key is not yet present (else raise)."""
+  prog = ctx.prog
+  ff = ctx.func('config.finalize')
+  g, facts = std_facts(prog, ff)
+  loops = [n for n in g.live_nodes() if n.kind == 'for' and '_FINALIZE_HOOKS' in u(n.ast.iter)]
+  if not loops:
+    ctx.fail(rule, construct(ff), 'finalize no longer iterates the registered hooks', ff.loc(), instance='conflict-guard')
+    return
+  loop_st = loops[0].ast
+  ins = [n for n in g.live_nodes() if n.kind == 'stmt' and isinstance(n.ast, ast.Assign)
+         and isinstance(n.ast.targets[0], ast.Subscript) and _inside(n.ast, loop_st)]
+  okc = False
+  why = 'no keyed insertion of hook results found'
+  for n in ins:
+    sub = n.ast.targets[0]
+    key = u(sub.slice)
+    cont = u(sub.value)
+    present = ('c', '%s in %s' % (key, cont), False) in facts[n.id]
+    d = None
+    for fct in facts[n.id]:
+      if fct[0] == 'def' and fct[1] == key:
+        d = fct[2]
+    parsed = d is not None and 'ParsedBindingKey.parse' in d
+    okc = present and parsed
+    why = 'the key `%s` %s' % (key, ('is `%s`, not the parsed binding key: two spellings of one parameter are different keys' % d) if not parsed
+                               else 'is inserted without the `in` test that detects a second update')
+  ctx.check(okc, rule, construct(ff),
+            'each hook update is keyed by the parsed (validated) binding key and inserted only if that key is not yet present, else raise',
+            'conflicting hook updates are not detected independently of spelling: %s' % why, ff.loc(loop_st), instance='conflict-guard')
+
+
+def _inside(node, root):
+  while node is not None:
+    if node is root:
+      return True
+    node = getattr(node, 'parent', None)
+  return False
